@@ -19,10 +19,15 @@ import (
 //     hold strictly decreasing sequence numbers.
 func (r *run) checkLSM() string {
 	d := r.x.D
+	d.VerifWaitIdle()
 	if err := d.CheckLevels(nil); err != nil {
 		return "CheckLevels: " + err.Error()
 	}
-	v := d.DebugCurrentVersion()
+	// A flushable ingest returns before its flush applies the excise; the flush may then delete a
+	// file of the version being audited. Queued background work was let finish above; pin the
+	// version as an iterator would so that its files stay readable.
+	v, release := d.VerifPinnedVersion()
+	defer release()
 	if err := v.CheckOrdering(); err != nil {
 		return "Version.CheckOrdering: " + err.Error()
 	}
@@ -132,7 +137,7 @@ func readKeys(r *run, readable objstorage.Readable, m *manifest.TableMetadata) (
 		return nil, err
 	}
 	defer rd.Close()
-	it, err := rd.NewPointIter(context.Background(), sstable.IterOptions{Transforms: sstable.NoTransforms})
+	it, err := rd.NewPointIter(context.Background(), sstable.IterOptions{Transforms: sstable.NoTransforms, BlobContext: sstable.DebugHandlesBlobContext})
 	if err != nil {
 		return nil, err
 	}
